@@ -348,6 +348,14 @@ fn oracle_accepted(e: &CaseEnv, out: &InterpreterOutcome, rep: &mut Report, owne
             let bpos = base_by_path.get(path).cloned();
             if let Some(bp) = bpos {
                 if cid_of_state(&fb.trace[bp]) == Some(&cid) { rep.stat("use_site_same_as_honest_run"); continue; }
+                // inside a stream / map fold the iteration index of a path is the index in the fold's lore, and the lore order is not the
+                // same in every run (it follows the generations of the data): the same result at the same place of ANOTHER iteration of
+                // the same fold in the honest run is the same call instance listed at another index, not a relocation
+                if path.contains('i') {
+                    let norm = |p: &str| { let b = p.as_bytes(); let mut o = String::new(); let mut k = 0; while k < b.len() { o.push(b[k] as char); if b[k] == b'i' { while k + 1 < b.len() && b[k + 1].is_ascii_digit() { k += 1; } o.push('*'); } k += 1; } o };
+                    let np = norm(path);
+                    if pb.iter().enumerate().any(|(i, q)| !q.is_empty() && norm(q) == np && cid_of_state(&fb.trace[i]) == Some(&cid)) { rep.stat("use_site_same_as_honest_run(other lore index of the same fold)"); continue; }
+                }
                 if let Some(cb) = cid_of_state(&fb.trace[bp]) {
                     if !matches!(fb.trace[bp], St::Canon(_)) { if let Some(ob) = base_t.as_ref().and_then(|b| tp::state_owner(&b.j, &b.j["trace"][bp])) { if &ob != attacker_id {
                         return Some(format!("output state {pos} (path {path}): result {cid} of {owner} accepted where the honest run holds the result {cb} of the same call (relocated result accepted)")); } } }
